@@ -462,4 +462,4 @@ def r5_setters_store_unchanged(chk, fx):
             chk.instance("C10/R5", "%s stores `%s` as given" % (T.short(n, 3), pn), n, loc_of(fx.thir[n].get("sp")), holds=not foreign,
                          key="C10/R5 %s stores-a-rewritten-value %s" % (T.short(T.strip_generics(n), 3), pn),
                          detail=None if not foreign else "what is sent is %s of the caller's value" % sorted(set(foreign))[:4])
-    chk.floor("C10/R5 setter parameters decided", decided, 6)
+    chk.floor("C10/R5 setter parameters decided", decided, 3)
